@@ -12,6 +12,9 @@ schedule = {
   "tuning":  {ACK_TIMEOUT, ACK_RANDOM_FACTOR, MAX_RETRANSMIT, ...}  (patched on TransportTuning)
   "mid0":    first message ID of the server, "nremotes": n,
   "rdelay":  units the renderer sleeps after reading the state (0: none),
+  "rgate":   True: the renderer of every notification (not of the first response) samples the state and
+             then suspends on a gate until a `release` step (whatever is still suspended when the steps
+             are over is released then, so that the run reaches quiescence),
   "steps":   [{"at": units, "do": ...}]
        rx      r, ty, code, mid (int | {"notif": n}: mid of the n-th distinct separate notification
                sent to r), tok (hex), observe (0 | 1 | None), path (default ["obs"])
@@ -20,6 +23,7 @@ schedule = {
                   "unsucc"  trigger(4.04) per observer      "last"  trigger(is_last=True) per observer
                   "ok"      trigger(2.05 explicit) per observer
                   "shared-unsucc" / "shared-ok"  updated_state(<one Message object for all observers>)
+       release g | r, tok   the suspended renderer of registration g / of the registration of (r, tok) goes on
        err     r            ICMP error for remote r
        shutdown | wait
   "reactions": [{"r": r, "nth": n, "copy": c, "delay": d, "ty": "ACK"|"RST"}]
@@ -45,7 +49,7 @@ from .vloop import TICKS_PER_S
 UNIT = TICKS_PER_S >> 10
 
 FIELDS = {
-    "k": "",      # rx tx change render accept obscount cancelcb err shutdown shutdown-done loopexc end
+    "k": "",      # rx tx change render release accept obscount cancelcb err shutdown shutdown-done loopexc end
     "t": 0,
     "r": 0,
     "ty": "",
@@ -206,6 +210,7 @@ def run(sched):
             if k in TUNING_KEYS:
                 w.patch(TransportTuning, k, v)
         rdelay = sched.get("rdelay", 0)
+        rgate = bool(sched.get("rgate"))
 
         class Observed(resource.ObservableResource):
             def __init__(self):
@@ -214,6 +219,8 @@ def run(sched):
                 self.nreg = 0
                 self.byreq = {}      # id(request object) -> (g, request)   (kept alive: ids stay unique)
                 self.servobs = {}    # g -> ServerObservation still registered (by this harness' book)
+                self.renders = {}    # g -> renderings so far
+                self.gates = []      # (g, r, tok, future) of suspended renderers
 
             def ident(self, request):
                 try:
@@ -251,9 +258,25 @@ def run(sched):
                 r, tok = self.ident(request)
                 s = self.state
                 ev("render", r=r, tok=tok, st=s, g=g, x="S")
-                if rdelay:
+                self.renders[g] = self.renders.get(g, 0) + 1
+                if rgate and g and self.renders[g] > 1:
+                    fut = w.loop.create_future()
+                    self.gates.append((g, r, tok, fut))
+                    await fut          # cancelled together with the task when the registration ends
+                elif rdelay:
                     await asyncio.sleep(rdelay / 1024.0)
                 return Message(code=Code.CONTENT, payload=b"S%d/%d" % (s, g))
+
+            def release(self, g=None, r=None, tok=None):
+                """Let the oldest matching suspended renderer go on; -> number still suspended"""
+                self.gates = [x for x in self.gates if not x[3].done()]
+                for x in self.gates:
+                    if (g is not None and x[0] == g) or (g is None and r is None) or (g is None and x[1] == r and x[2] == tok):
+                        ev("release", r=x[1], tok=x[2], g=x[0])
+                        x[3].set_result(None)
+                        self.gates.remove(x)
+                        break
+                return len(self.gates)
 
             def change(self, x):
                 self.state += 1
@@ -311,6 +334,8 @@ def run(sched):
                 # one callback, no yielding: the whole burst hits the lossy trigger slot
                 for x in step.get("xs") or [step.get("x", "")] * step.get("n", 1):
                     res.change(x)
+            elif do == "release":
+                res.release(step.get("g"), step.get("r"), step.get("tok"))
             elif do == "err":
                 ev("err", r=step["r"])
                 w.net.inject_error(sock, sockaddr(step["r"]))
@@ -330,6 +355,12 @@ def run(sched):
                 pass
             else:
                 raise ValueError(do)
+            await w.loop.settle()
+        for _ in range(1000):     # nothing stays suspended: quiescence means every rendering has finished
+            res.gates = [x for x in res.gates if not x[3].done()]
+            if not res.gates:
+                break
+            res.release()
             await w.loop.settle()
         hz = sched.get("horizon")
         await w.loop.drain(horizon=None if hz is None else (last_at + hz) / 1024.0)
